@@ -226,7 +226,21 @@ func c02(ctx *core.Ctx) {
 		r := ctx.Rand(ti, "table")
 		o := fullGenOpts(router)
 		o.OddMethods = true
+		switch ti % 40 {
+		case 9:
+			o.MaxRoutes, o.MaxSvcs = 60, 4 // "template/route counts may be arbitrary"
+		}
 		t := rt.GenTable(r, o)
+		switch ti % 40 {
+		case 7:
+			t.Svcs = nil // a container without any WebService
+			ctx.Count("tables_without_services", 1)
+		case 8:
+			t.Svcs[0].Routes = nil // a WebService without routes
+			ctx.Count("tables_with_routeless_service", 1)
+		case 9:
+			ctx.Max("max_routes_in_a_table", t.NumRoutes())
+		}
 		ctx.Case(ti, "router="+router+" table="+core.JSON(t))
 		bo := rt.DefaultBuild(router)
 		bo.Switched = ti%4 == 2
